@@ -207,3 +207,13 @@ CLAIMS["C14"] = (
     "GeneralizedLinearEstimator, bit-wise) on 4 designs x 2 alphas x intercept through the optimality-gap theorem.",
     "Differential only: the special case is the oracle of the general component (their common correctness is C06-C08's business).",
     "DESIGN.md §4 C14")
+CLAIMS["C15"] = (
+    "exploration",
+    "exhaustive enumeration of the symmetry group of small problems (all permutations of features / groups / tasks / samples, replications, scalings) with a metamorphic convexity oracle on the real solvers",
+    "For 11 convex compositions (all CD / BCD / prox-Newton / Gram / FISTA solvers, weighted penalties, non-contiguous groups) x dense / "
+    "CSC x designs x intercept: every feature permutation (weights and group membership carried along), every group order, every task "
+    "order, every sample order (n <= 4; 24 otherwise), replication x2 / x3, scalings of (y, alpha) and of (feature, weight): the fit of the "
+    "transformed problem and the transform of the original fit must satisfy the optimality-gap theorem in both directions, and "
+    "coincide when the problem is strongly convex.",
+    "Convex problems only (non-convex solutions legitimately depend on the coordinate order).",
+    "DESIGN.md §4 C15")
